@@ -20,8 +20,18 @@ def replayer(pattern: str):
     return deco
 
 
-def run_native(script: str, args: list[str], timeout=60) -> dict:
-    """Run a replay script against the real code of the tree under verification (PYVC_REPO or /repo)."""
+_RUNS: dict = {}
+
+
+def run_native(script: str, args: list[str], timeout=120) -> dict:
+    """Run a replay script against the real code of the tree under verification (PYVC_REPO or /repo); once per check run."""
+    key = (script, tuple(args))
+    if key not in _RUNS:
+        _RUNS[key] = _run_native(script, args, timeout)
+    return _RUNS[key]
+
+
+def _run_native(script: str, args: list[str], timeout=120) -> dict:
     repo = os.environ.get('PYVC_REPO', '/repo')
     env = dict(os.environ, PYTHONPATH=repo + os.pathsep + os.environ.get('PYTHONPATH', ''), BUBUS_LOGGING_LEVEL='CRITICAL')
     here = os.path.dirname(os.path.abspath(__file__))
